@@ -71,14 +71,16 @@ impl Check for C12 {
         // observer
         let obs = g.open_conn();
         g.exclude.push(obs);
-        raw(&mut g, obs, "NICK watcher");
+        // the observer's nickname may differ from a hidden user's only by letter case (distinct users for this server)
+        let onick: &str = ["watcher", "watcher", "watcher", "watcher", "HXA", "Hxa", "hYB"][r.below(7)];
+        raw(&mut g, obs, &format!("NICK {}", onick));
         raw(&mut g, obs, "USER watch 0 * :The Watcher");
         let okind = r.below(6);
         let okind_name = ["plain", "oper", "invisible", "multi_prefix", "ex_member", "ex_member_kicked"][okind];
         let hidden_chan_name = if secret { "#hid" } else { "#inv" };
         match okind {
             1 => raw(&mut g, obs, "OPER root rootpw"),
-            2 => raw(&mut g, obs, "MODE watcher +i"),
+            2 => raw(&mut g, obs, &format!("MODE {} +i", onick)),
             3 => raw(&mut g, obs, "CAP REQ :multi-prefix"),
             4 if !cfg.channels.iter().any(|c| c.name == hidden_chan_name) => {
                 // the observer once was the only member of a channel of that name and left it (public history, both worlds)
@@ -88,7 +90,7 @@ impl Check for C12 {
             }
             5 if !cfg.channels.iter().any(|c| c.name == hidden_chan_name) => {
                 raw(&mut g, obs, &format!("JOIN {},#obs2", hidden_chan_name));
-                raw(&mut g, obs, &format!("MODE {} -o watcher", hidden_chan_name));
+                raw(&mut g, obs, &format!("MODE {} -o {}", hidden_chan_name, onick));
                 raw(&mut g, obs, &format!("PART {},#obs2", hidden_chan_name));
             }
             _ => {}
@@ -105,6 +107,7 @@ impl Check for C12 {
         params.insert("scenario".to_string(), if secret { "secret_channel" } else { "invisible_user" }.to_string());
         params.insert("observer".to_string(), okind_name.to_string());
         params.insert("obs_conn".to_string(), obs.to_string());
+        params.insert("obs_nick".to_string(), onick.to_string());
         params.insert("hidden_conns".to_string(), format!("{},{}", h1, h2));
         params.insert("hidden_chan".to_string(), hidden_chan.to_string());
         if secret {
@@ -185,7 +188,7 @@ impl Check for C12 {
                         4 => (h1, format!("PRIVMSG {} :psst {}", hidden_chan, round)),
                         5 => (h2, format!("PART {}", hidden_chan)),
                         6 => (h1, format!("MODE {} +k sesame", hidden_chan)),
-                        7 => (h1, format!("MODE {} +b watcher!*@*", hidden_chan)),
+                        7 => (h1, format!("MODE {} +b {}!*@*", hidden_chan, onick)),
                         _ => (h1, format!("INVITE {} {}", hn2, hidden_chan)),
                     };
                     raw(&mut g, op.0, &op.1);
@@ -329,6 +332,7 @@ async fn run_world(t: Trace, with_hidden: bool) -> WorldRun {
     let mut wr = WorldRun::default();
     let mut w = World::new(&t.config).await;
     let obs_conn: usize = t.params.get("obs_conn").and_then(|s| s.parse().ok()).unwrap_or(0);
+    let obs_nick: String = t.params.get("obs_nick").cloned().unwrap_or_else(|| "watcher".to_string());
     let hidden_conns: Vec<usize> = t.params.get("hidden_conns").map(|s| s.split(',').filter_map(|x| x.parse().ok()).collect()).unwrap_or_default();
     let mut hidden = false;
     let mut pending_query: Option<(String, u32)> = None;
@@ -384,7 +388,7 @@ async fn run_world(t: Trace, with_hidden: bool) -> WorldRun {
                         let leaked: Vec<String> = hidden_conns
                             .iter()
                             .flat_map(|h| obs[*h].lines.iter())
-                            .filter(|l| irc::parse(l).map_or(false, |p| (p.cmd == "PRIVMSG" || p.cmd == "NOTICE") && p.nick_of_source() == Some("watcher")))
+                            .filter(|l| irc::parse(l).map_or(false, |p| (p.cmd == "PRIVMSG" || p.cmd == "NOTICE") && p.nick_of_source() == Some(obs_nick.as_str())))
                             .cloned()
                             .collect();
                         if !leaked.is_empty() {
